@@ -1,12 +1,12 @@
 //! C08 - decoder honours layouts v1-v3 and never accepts truncated or extended files.
 
-use super::common::format_family;
+use super::common::{format_family, large_family, via_binary};
 use crate::ctx::Ctx;
 use crate::drive::{self, check_against_model};
 use crate::encode::{self, EncOpts, Sections};
 use crate::model::{Facts, Mode, RefOnt, KINDS};
 use crate::obs::Obs;
-use crate::space::{apply_perm, permutations};
+use crate::space::{apply_perm, permutations, rotations_and_reverse};
 use hpo::Ontology;
 use serde_json::json;
 
@@ -102,9 +102,72 @@ fn decode_ok(bytes: &[u8]) -> Result<Option<Ontology>, String> {
     }
 }
 
+/// Oracle for files whose layout the documentation does not settle: the decoder may refuse (error or panic); if it
+/// returns an ontology, that ontology must be walkable through the whole read API without panic or disagreement
+/// (which includes: every id list strictly ascending, i.e. no id listed twice), and ancestors, children, inherited
+/// links, information content and default categories must be exactly what follows from the terms, direct parents and
+/// records the ontology itself reports.
+pub fn self_consistent_or_refused(ctx: &mut Ctx, bytes: &[u8], path: &str, case: &dyn Fn() -> serde_json::Value) {
+    ctx.exec();
+    ctx.validated();
+    match drive::from_bytes(bytes) {
+        Ok(Ok(ont)) => match Obs::of(&ont) {
+            Err(inc) => ctx.violation(&inc.site, &format!("[{path}] returns an ontology whose read API is inconsistent or panics"), json!({"case": case(), "observed": inc.what})),
+            Ok(obs) => {
+                ctx.bump("unspecified_layouts_accepted", 1);
+                let vs: Vec<u32> = obs.version.split('-').map(|x| x.parse().unwrap_or(0)).collect();
+                let version = if vs.len() == 3 { (vs[0] as u16, vs[1] as u8, vs[2] as u8) } else { (0, 0, 0) };
+                let own = obs.to_facts(version);
+                let exp = Obs::expected(&RefOnt::derive(&own), Mode::Defaults);
+                if let Some((site, sig, det)) = obs.diff(&exp, false) {
+                    ctx.violation(&site, &format!("[{path}] returned ontology is not consistent with the terms, parents and records it reports itself: {sig}"), json!({"case": case(), "difference": det}));
+                }
+                ctx.outcome(obs.fingerprint());
+            }
+        },
+        Ok(Err(_)) | Err(_) => ctx.bump("unspecified_layouts_refused", 1),
+    }
+}
+
+/// single-byte suffixes that are part of the listed suffixes of `faults`
+const LISTED_SINGLE_BYTES: [u8; 8] = [0, 0xff, b'\n', b' ', b'\r', b'\t', 0x0b, 0x0c];
+
+/// the byte values b with b % m == c % m
+fn byte_class(c: usize, m: usize) -> Vec<u8> {
+    (0..=255u8).filter(|b| *b as usize % m == c % m).collect()
+}
+
+fn suffix_faults(ctx: &mut Ctx, bytes: &[u8], version: u8, describe: &dyn Fn() -> serde_json::Value, suffixes: Vec<(Vec<u8>, String)>) {
+    let hexd = |b: &[u8]| {
+        if b.len() <= 4096 {
+            b.iter().map(|x| format!("{x:02x}")).collect::<String>()
+        } else {
+            format!("{}...<{} bytes>", b[..64].iter().map(|x| format!("{x:02x}")).collect::<String>(), b.len())
+        }
+    };
+    for (suf, name) in suffixes {
+        ctx.exec();
+        ctx.transitions(1);
+        let mut b = bytes.to_vec();
+        b.extend_from_slice(&suf);
+        if let Ok(Some(_)) = decode_ok(&b) {
+            let sig = if !suf.is_empty() && suf.iter().all(|x| x.is_ascii_whitespace() || *x == 0x0b) { "accepts a valid file followed by white space" } else { "accepts a valid file followed by extra bytes" };
+            ctx.violation("Ontology::from_bytes", sig, json!({"file": describe(), "format_version": version, "file_len": bytes.len(), "suffix": name, "suffix_len": suf.len(), "bytes_hex": hexd(&b)}));
+        }
+    }
+}
+
 /// Space B for one valid file: every proper prefix, the listed suffixes, every other version byte.
-fn faults(ctx: &mut Ctx, bytes: &[u8], version: u8, last_section: &[u8], describe: &dyn Fn() -> serde_json::Value, prefix_stride: usize) {
-    let hexd = |b: &[u8]| b.iter().map(|x| format!("{x:02x}")).collect::<String>();
+/// `singles`: the byte values tried as one-byte suffixes besides the listed suffixes (which contain 00, ff and the
+/// white-space bytes).
+fn faults(ctx: &mut Ctx, bytes: &[u8], version: u8, last_section: &[u8], describe: &dyn Fn() -> serde_json::Value, prefix_stride: usize, singles: &[u8]) {
+    let hexd = |b: &[u8]| {
+        if b.len() <= 4096 {
+            b.iter().map(|x| format!("{x:02x}")).collect::<String>()
+        } else {
+            format!("{}...<{} bytes>", b[..64].iter().map(|x| format!("{x:02x}")).collect::<String>(), b.len())
+        }
+    };
     let mut offsets: Vec<usize> = (0..bytes.len()).step_by(prefix_stride).collect();
     // always include the offsets next to section borders and the end
     for d in 1..=9 {
@@ -114,43 +177,50 @@ fn faults(ctx: &mut Ctx, bytes: &[u8], version: u8, last_section: &[u8], describ
     }
     offsets.sort_unstable();
     offsets.dedup();
+    // (a decode that does not return at all is caught by the supervisor's watchdog and reported after two isolated
+    // re-runs as "subject code aborted or did not return"; wall time is not part of the property and is not measured)
     for cut in offsets {
         ctx.exec();
         ctx.transitions(1);
-        let t0 = std::time::Instant::now();
         if let Ok(Some(_)) = decode_ok(&bytes[..cut]) {
             ctx.violation("Ontology::from_bytes", "accepts a proper prefix of a valid file", json!({"file": describe(), "format_version": version, "file_len": bytes.len(), "prefix_len": cut, "bytes_hex": hexd(&bytes[..cut])}));
         }
-        if t0.elapsed().as_secs_f64() > 2.0 {
-            ctx.violation("Ontology::from_bytes", "takes longer than 2 s on a truncated file", json!({"file": describe(), "prefix_len": cut}));
-        }
     }
-    let mut suffixes: Vec<(Vec<u8>, &str)> = vec![
-        (vec![0], "00"),
-        (vec![0xff], "ff"),
-        (vec![0; 4], "00 x4 (an empty extra section)"),
-        (vec![0; 5], "00 x5"),
-        (vec![0; 8], "00 x8 (two empty extra sections)"),
-        (b"HPO\x03".to_vec(), "HPO\\x03"),
-        (vec![0, 0, 0, 1, 0], "a one-byte extra section"),
+    let mut suffixes: Vec<(Vec<u8>, String)> = vec![
+        (vec![0], "00".into()),
+        (vec![0xff], "ff".into()),
+        (b"\n".to_vec(), "a line feed".into()),
+        (b" ".to_vec(), "a blank".into()),
+        (b"\r".to_vec(), "a carriage return".into()),
+        (b"\t".to_vec(), "a tab".into()),
+        (vec![0x0b], "a vertical tab".into()),
+        (vec![0x0c], "a form feed".into()),
+        (b"\r\n".to_vec(), "CR LF".into()),
+        (b"\n\n".to_vec(), "two line feeds".into()),
+        (b"  ".to_vec(), "two blanks".into()),
+        (vec![0; 4], "00 x4 (an empty extra section)".into()),
+        (vec![0; 5], "00 x5".into()),
+        (vec![0; 8], "00 x8 (two empty extra sections)".into()),
+        (vec![0; 512], "00 x512".into()),
+        (b"HPO\x03".to_vec(), "HPO\\x03".into()),
+        (vec![0, 0, 0, 1, 0], "a one-byte extra section".into()),
     ];
     let mut copy = (last_section.len() as u32).to_be_bytes().to_vec();
     copy.extend_from_slice(last_section);
-    suffixes.push((copy, "a copy of the file's last section"));
-    for (suf, name) in suffixes {
-        ctx.exec();
-        ctx.transitions(1);
-        let mut b = bytes.to_vec();
-        b.extend_from_slice(&suf);
-        if let Ok(Some(_)) = decode_ok(&b) {
-            ctx.violation("Ontology::from_bytes", "accepts a valid file followed by extra bytes", json!({"file": describe(), "format_version": version, "file_len": bytes.len(), "suffix": name, "bytes_hex": hexd(&b)}));
+    suffixes.push((copy, "a copy of the file's last section".into()));
+    suffixes.push((bytes.to_vec(), "a second copy of the whole file".into()));
+    for &b in singles {
+        if !LISTED_SINGLE_BYTES.contains(&b) {
+            suffixes.push((vec![b], format!("the single byte {b:02x}")));
         }
     }
+    suffix_faults(ctx, bytes, version, describe, suffixes);
     if version == 1 {
-        // a headerless v1 body behind a header announcing any version other than 2 and 3 (in particular 1,
-        // which has no header form) is a file announcing an unsupported version
+        // a headerless v1 body behind a header announcing a version the crate does not support. Version bytes 2 and 3
+        // announce other layouts; version byte 1 is left out: version 1 IS supported, and the documentation does not
+        // say whether a v1 file may carry the `HPO` header (the shipped one does not) - don't-care.
         for vb in 0..=255u8 {
-            if vb == 2 || vb == 3 {
+            if vb == 1 || vb == 2 || vb == 3 {
                 continue;
             }
             ctx.exec();
@@ -165,7 +235,8 @@ fn faults(ctx: &mut Ctx, bytes: &[u8], version: u8, last_section: &[u8], describ
     }
     if version >= 2 {
         for vb in 0..=255u8 {
-            if vb == version {
+            if vb == version || vb == 1 {
+                // 1: a supported version whose header form (if any) is undocumented, see above - don't-care
                 continue;
             }
             ctx.exec();
@@ -182,11 +253,13 @@ fn faults(ctx: &mut Ctx, bytes: &[u8], version: u8, last_section: &[u8], describ
 
 pub fn run(ctx: &mut Ctx) {
     let thorough = ctx.tier.thorough();
-    ctx.rule = "conformance: case = (fact set, format version) encoded by the independent encoder in all record orders (one section permuted at a time) and with the ids inside records reversed; faults: case = one valid file with every proper prefix, every listed suffix, every other version byte; distinct by construction; non-trivial = file with at least one record in three sections".into();
+    ctx.rule = "conformance: case = (fact set, format version) encoded by the independent encoder in all record orders (one section permuted at a time), with the ids inside records reversed and - for one record with >= 3 ids per section - in every order; header dates 0-0-0, 2022-12-31, 2024-02-29, 65535-255-255; v1 / v2 files with ids >= 65 536, 300 parents, 301 terms, a 70 000-byte disease name; faults: case = one valid file with every proper prefix, every listed suffix (all 256 single bytes, white space, copies), every other version byte; distinct by construction; non-trivial = file with at least one record in three sections".into();
     ctx.assumptions = vec![
         "the independent encoder is trusted only after reproducing the records of the three shipped example files byte for byte (first space)".into(),
-        "rejected = Err or panic (the decoder documents that it may panic on malformed input); a hang is reported separately".into(),
+        "rejected = Err or panic (the decoder documents that it may panic on malformed input); a decode that does not return is caught by the supervisor's watchdog, wall time is not measured".into(),
         "record ids are unique inside a section; replacement ids name existing terms; names <= 255 bytes".into(),
+        "version byte 1 behind the HPO magic is don't-care: version 1 is a supported version and the documentation does not say whether a v1 file may carry the header (the shipped v1 file has none); every other version byte except 2 and 3 announces an unsupported version".into(),
+        "unspecified layouts (one parent record per link, an id listed twice inside a parent / gene / disease record): the decoder may refuse; if it returns an ontology, only its self-consistency is demanded".into(),
     ];
     validate_encoder(ctx);
 
@@ -204,6 +277,22 @@ pub fn run(ctx: &mut Ctx) {
             Facts::ann(crate::model::Kind::Orpha, 77, &"O".repeat(256), Some(1)),
         ];
         family.push((f, format!("term names of {len} bytes, 255-byte gene name, 300-byte disease name")));
+    }
+    // header dates other than 2024-02-29 (v1 has no header: its projection carries 0-0-0 anyway)
+    for (i, date) in [(0u16, 0u8, 0u8), (2022, 12, 31), (65535, 255, 255)].into_iter().enumerate() {
+        let (x, y) = (300 + i as u32, 310 + i as u32);
+        let mut f = Facts::default();
+        f.version = date;
+        f.terms = vec![Facts::term(1, "All"), Facts::term(118, "Phenotypic abnormality"), Facts::term(x, "Dated term"), crate::model::TermFact { id: y, name: "Retired term".into(), obsolete: true, replacement: Some(x) }];
+        f.edges = vec![(118, 1), (x, 118)];
+        f.anns = vec![
+            Facts::ann(crate::model::Kind::Gene, 11, "GENE1", Some(x)),
+            Facts::ann(crate::model::Kind::Gene, 33, "GENE3", None),
+            Facts::ann(crate::model::Kind::Omim, 600_001, "Disease one", Some(118)),
+            Facts::ann(crate::model::Kind::Orpha, 77, "Orpha one", Some(x)),
+            Facts::ann(crate::model::Kind::Orpha, 78, "Orpha two", Some(1)),
+        ];
+        family.push((f, format!("release date {}-{}-{} in the header", date.0, date.1, date.2)));
     }
     // ---- Space A: conformance in all record orders
     ctx.space("conformance/v1-v3/record-orders", &format!("{} fact sets x versions 1,2,3; term records: all orders; parent records: all orders; gene/omim/orpha records: all orders; ids inside records reversed; parentless terms without parent record; the canonical file also through Ontology::from_binary (whole, cut in half, one byte short)", family.len()));
@@ -297,10 +386,189 @@ pub fn run(ctx: &mut Ctx) {
     }
     crate::jax::cleanup();
 
+    // ---- Space A2: the ids inside one record per section in every order
+    {
+        // (section, position of the record in the section, its ids) of the first record with >= 3 ids; section 0 =
+        // parent records, 1..3 = gene / OMIM / ORPHA records
+        let first_long = |pf: &Facts, version: u8| -> Vec<(usize, usize, Vec<u32>)> {
+            let mut out = vec![];
+            for (i, t) in pf.terms.iter().enumerate() {
+                let ps: Vec<u32> = pf.edges.iter().filter(|e| e.0 == t.id).map(|e| e.1).collect();
+                if ps.len() >= 3 {
+                    out.push((0, i, ps));
+                    break;
+                }
+            }
+            for k in KINDS {
+                if k.idx() == 2 && version < 3 {
+                    continue;
+                }
+                if let Some((i, r)) = encode::records_of(pf, k).into_iter().enumerate().find(|(_, r)| r.2.len() >= 3) {
+                    out.push((1 + k.idx(), i, r.2));
+                }
+            }
+            out
+        };
+        let with_long: Vec<&(Facts, String)> = family.iter().filter(|(f, _)| !first_long(f, 3).is_empty()).collect();
+        let stride = if thorough { 1 } else { 5 };
+        let picked: Vec<&(Facts, String)> = with_long.iter().copied().step_by(stride).collect();
+        ctx.space("conformance/v1-v3/id-orders", &format!("{} of the {} fact sets that have a record with >= 3 ids (every {stride}th) x versions 1,2,3: for the first such parent, gene, OMIM and ORPHA record the ids in every order (all permutations up to 4 ids, rotations + reverse above)", picked.len(), with_long.len()));
+        if !thorough {
+            ctx.mark_partial("id orders: the quick tier takes every 5th fact set with a long record (all of them in the thorough tier)");
+        }
+        for (f, what) in picked {
+            for version in [1u8, 2, 3] {
+                if !ctx.take() {
+                    continue;
+                }
+                ctx.state();
+                ctx.nontrivial();
+                let pf = encode::project(f, version);
+                let r = RefOnt::derive(&pf);
+                let secs = Sections::from_facts(&pf, &EncOpts::v(version));
+                for (sec, pos, ids) in first_long(&pf, version) {
+                    let perms = if ids.len() <= 4 { permutations(ids.len()) } else { rotations_and_reverse(ids.len()) };
+                    for p in perms.into_iter().skip(1) {
+                        let listed = apply_perm(&ids, &p);
+                        let mut x = secs.clone();
+                        let what_rec;
+                        if sec == 0 {
+                            x.parents[pos] = encode::parents_record(pf.terms[pos].id, &listed);
+                            what_rec = format!("parent record of {}", pf.terms[pos].id);
+                        } else {
+                            let k = KINDS[sec - 1];
+                            let (id, name, _) = encode::records_of(&pf, k).swap_remove(pos);
+                            x.recs[sec - 1][pos] = if sec == 1 { encode::gene_record(id, &name, &listed) } else { encode::disease_record(id, &name, &listed) };
+                            what_rec = format!("{} record {}", k.name(), id);
+                        }
+                        ctx.transitions(pf.n_steps());
+                        let bytes = x.to_bytes();
+                        let case = || json!({"facts": pf.to_json(), "family": what, "format_version": version, "record": what_rec, "ids_listed_as": listed, "bytes_hex": bytes.iter().map(|b| format!("{b:02x}")).collect::<String>()});
+                        match drive::from_bytes(&bytes) {
+                            Ok(Ok(ont)) => {
+                                check_against_model(ctx, &ont, &r, Mode::Defaults, &format!("binary v{version}, ids inside a record permuted"), &case);
+                            }
+                            Ok(Err(e)) => {
+                                ctx.exec();
+                                ctx.violation("Ontology::from_bytes", &format!("[binary v{version}, ids inside a record permuted] rejects a file laid out as documented"), json!({"case": case(), "observed": e}));
+                            }
+                            Err(e) => {
+                                ctx.exec();
+                                ctx.violation("Ontology::from_bytes", &format!("[binary v{version}, ids inside a record permuted] panics on a file laid out as documented"), json!({"case": case(), "observed": e}));
+                            }
+                        }
+                    }
+                }
+                ctx.sample(|| json!({"facts": pf.to_json(), "format_version": version, "family": what, "records": first_long(&pf, version).iter().map(|x| format!("section {} record {} ids {:?}", x.0, x.1, x.2)).collect::<Vec<_>>()}));
+            }
+        }
+    }
+
+    // ---- Space A3: layouts the documentation does not settle (three encoder options) - policy-neutral oracle
+    {
+        let bases: Vec<&(Facts, String)> = family.iter().filter(|(f, _)| f.edges.len() >= 2 && !f.anns.is_empty()).step_by(if thorough { 7 } else { 61 }).collect();
+        ctx.space("conformance/v1-v3/unspecified-layouts", &format!("{} fact sets x versions 1,2,3 x (one parent record per link | first parent id of every parent record repeated at its end | first term id of every gene / disease record repeated at its end | all three): the decoder may refuse; a returned ontology must be walkable, list no id twice and have exactly the links that follow from the terms, parents and records it reports itself", bases.len()));
+        for (f, what) in bases {
+            for version in [1u8, 2, 3] {
+                if !ctx.take() {
+                    continue;
+                }
+                ctx.state();
+                ctx.nontrivial();
+                let pf = encode::project(f, version);
+                let variants: [(&str, EncOpts); 4] = [
+                    ("one parent record per (term, parent) link", EncOpts { split_parent_records: true, ..EncOpts::v(version) }),
+                    ("first parent id of every parent record listed again at its end", EncOpts { repeat_parent_ids: true, ..EncOpts::v(version) }),
+                    ("first term id of every gene / disease record listed again at its end", EncOpts { repeat_term_ids: true, ..EncOpts::v(version) }),
+                    ("all three at once", EncOpts { split_parent_records: true, repeat_parent_ids: true, repeat_term_ids: true, ..EncOpts::v(version) }),
+                ];
+                for (layout, o) in variants {
+                    ctx.transitions(pf.n_steps());
+                    let bytes = encode::encode(&pf, &o);
+                    let case = || json!({"facts": pf.to_json(), "family": what, "format_version": version, "layout": layout, "bytes_hex": bytes.iter().map(|b| format!("{b:02x}")).collect::<String>()});
+                    self_consistent_or_refused(ctx, &bytes, &format!("binary v{version}, {layout}"), &case);
+                }
+                ctx.sample(|| json!({"facts": pf.to_json(), "format_version": version, "family": what}));
+            }
+        }
+    }
+
+    // ---- Space A4: v1 / v2 files beyond the small family - ids >= 65 536, a parent record with 300 parents, more than 255
+    // terms, records listing 300 terms, a 70 000-byte disease name (conformance only; v3 is covered by C01 / C02)
+    {
+        let mut big: Vec<(Facts, String)> = vec![];
+        {
+            let mut f = Facts::default();
+            f.version = (2024, 2, 29);
+            f.terms = vec![Facts::term(1, "All"), Facts::term(118, "Phenotypic abnormality"), Facts::term(65_535, "id 65535"), Facts::term(65_536, "id 65536"), Facts::term(65_537, "id 65537"), Facts::term(16_777_216 - 7_000_000, "id 9777216"), Facts::term(9_999_999, "id 9999999"), crate::model::TermFact { id: 70_000, name: "retired".into(), obsolete: true, replacement: Some(9_999_999) }];
+            f.edges = vec![(118, 1), (65_535, 118), (65_536, 118), (65_537, 65_536), (9_777_216, 65_537), (9_999_999, 65_535), (9_999_999, 9_777_216)];
+            f.anns = vec![
+                Facts::ann(crate::model::Kind::Gene, 65_536, "G65536", Some(9_999_999)),
+                Facts::ann(crate::model::Kind::Gene, 65_536, "G65536", Some(65_536)),
+                Facts::ann(crate::model::Kind::Gene, u32::MAX, "GMAX", Some(65_537)),
+                Facts::ann(crate::model::Kind::Omim, 9_999_999, "Omim 9999999", Some(65_535)),
+                Facts::ann(crate::model::Kind::Omim, 16_777_216, "Omim 2^24", Some(9_777_216)),
+                Facts::ann(crate::model::Kind::Orpha, 70_000, "Orpha 70000", Some(9_999_999)),
+            ];
+            big.push((f, "term ids 65 535 ... 9 999 999, record ids 65 536 ... u32::MAX".into()));
+        }
+        for (f, what) in large_family() {
+            if !(what.starts_with("deep chain of 300 terms") || what.starts_with("one term with 300 direct parents")) {
+                continue;
+            }
+            // a gene, an OMIM and an ORPHA disease on every term (records listing ~300 terms), a second record per kind
+            let mut g = f.clone();
+            for t in &f.terms {
+                g.anns.push(Facts::ann(crate::model::Kind::Gene, 11, "GENE1", Some(t.id)));
+                g.anns.push(Facts::ann(crate::model::Kind::Omim, 600_001, "Disease one", Some(t.id)));
+                g.anns.push(Facts::ann(crate::model::Kind::Orpha, 77, "Orpha one", Some(t.id)));
+            }
+            let lastid = f.terms.last().unwrap().id;
+            g.anns.push(Facts::ann(crate::model::Kind::Gene, 22, "GENE2", Some(lastid)));
+            g.anns.push(Facts::ann(crate::model::Kind::Omim, 600_002, "Disease two", Some(118)));
+            g.anns.push(Facts::ann(crate::model::Kind::Orpha, 78, "Orpha two", Some(lastid)));
+            big.push((g, format!("{what}, a gene / OMIM / ORPHA record on every term")));
+        }
+        {
+            let mut f = Facts::default();
+            f.version = (2024, 2, 29);
+            f.terms = vec![Facts::term(1, "All"), Facts::term(118, "Phenotypic abnormality"), Facts::term(119, "Further term")];
+            f.edges = vec![(118, 1), (119, 118)];
+            f.anns = vec![
+                Facts::ann(crate::model::Kind::Gene, 11, "GENE1", Some(119)),
+                Facts::ann(crate::model::Kind::Omim, 600_001, &"long disease name ".repeat(4000), Some(119)),
+                Facts::ann(crate::model::Kind::Omim, 600_002, "Disease two", Some(118)),
+                Facts::ann(crate::model::Kind::Orpha, 77, &"long orpha name ".repeat(4400), Some(118)),
+            ];
+            big.push((f, "an OMIM disease name of 72 000 bytes (a disease section beyond 64 KiB)".into()));
+        }
+        ctx.space("conformance/v1-v2/large", &format!("{} fact sets (ids >= 65 536; chains of 301 terms; a term with 300 parents; records listing ~300 terms; a 72 000-byte disease name) x versions 1, 2 x (canonical | ids inside records and record order reversed)", big.len()));
+        for (f, what) in &big {
+            for version in [1u8, 2] {
+                if !ctx.take() {
+                    continue;
+                }
+                ctx.state();
+                ctx.nontrivial();
+                via_binary(ctx, f, &EncOpts::v(version), &format!("{what}; canonical"));
+                let mut g = f.clone();
+                g.edges.reverse();
+                g.anns.reverse();
+                via_binary(ctx, &g, &EncOpts::v(version), &format!("{what}; links and annotation facts reversed"));
+                ctx.sample(|| json!({"family": what, "format_version": version, "terms": f.terms.len(), "links": f.edges.len(), "annotation_facts": f.anns.len()}));
+            }
+        }
+    }
+
     // ---- Space B: faults
-    ctx.space("faults/generated-files", &format!("{} generated files x versions 1,2,3: every proper prefix 0..len-1, 8 suffixes, every other version byte", family.len()));
+    ctx.space("faults/generated-files", &format!("{} generated files x versions 1,2,3: every proper prefix 0..len-1, 19 listed suffixes (white space, zero runs, copies of the last section and of the whole file) + single-byte suffixes ({}), every other version byte", family.len(), if thorough { "all 256 byte values" } else { "32 of the 256 byte values per file, rotating over the files; thorough: all" }));
+    if !thorough {
+        ctx.mark_partial("generated files: in the quick tier every file gets 32 of the 256 single-byte suffixes (rotating over the files) besides the listed ones; all 256 in the thorough tier");
+    }
+    let mut file_no = 0usize;
     for (f, what) in &family {
         for version in [1u8, 2, 3] {
+            file_no += 1;
             if !ctx.take() {
                 continue;
             }
@@ -322,14 +590,14 @@ pub fn run(ctx: &mut Ctx) {
             }
             let last = if version >= 3 { secs.recs[2].concat() } else { secs.recs[1].concat() };
             let describe = || json!({"facts": pf.to_json(), "family": what});
-            faults(ctx, &bytes, version, &last, &describe, 1);
+            faults(ctx, &bytes, version, &last, &describe, 1, &byte_class(file_no / 3 + file_no % 3, if thorough { 1 } else { 8 }));
             ctx.outcome(crate::ctx::fnv(&bytes) % 65536);
-            ctx.sample(|| json!({"facts": pf.to_json(), "format_version": version, "file_len": bytes.len(), "faults": bytes.len() + 8 + if version >= 2 { 255 } else { 0 }}));
+            ctx.sample(|| json!({"facts": pf.to_json(), "format_version": version, "file_len": bytes.len(), "faults": bytes.len() + 19 + if thorough { 248 } else { 31 } + if version >= 2 { 254 } else { 252 }}));
         }
     }
 
     // ---- shipped files: every offset of example.hpo (thorough), strided in quick
-    ctx.space("faults/shipped-files", "tests/example.hpo, example_v2.hpo, example_v1.hpo: prefixes (quick: every 97th offset and the last 9; thorough: every offset), suffixes, version bytes");
+    ctx.space("faults/shipped-files", "tests/example.hpo, example_v2.hpo, example_v1.hpo: prefixes (quick: every 97th offset and the last 9; thorough: every offset), the listed suffixes and all 256 single-byte suffixes, version bytes");
     for (file, version) in [("/repo/tests/example.hpo", 3u8), ("/repo/tests/example_v2.hpo", 2), ("/repo/tests/example_v1.hpo", 1)] {
         let bytes = std::fs::read(file).unwrap_or_else(|e| panic!("cannot read {file}: {e}"));
         let chunks = 16usize;
@@ -353,9 +621,12 @@ pub fn run(ctx: &mut Ctx) {
                     ctx.violation("Ontology::from_bytes", "accepts a proper prefix of a valid file", json!({"file": file, "file_len": bytes.len(), "prefix_len": cut}));
                 }
             }
+            // every byte value as a one-byte suffix, spread over the chunks (a decode of a shipped file is a full parse)
+            let singles: Vec<(Vec<u8>, String)> = byte_class(c, chunks).into_iter().filter(|b| !LISTED_SINGLE_BYTES.contains(b)).map(|b| (vec![b], format!("the single byte {b:02x}"))).collect();
+            suffix_faults(ctx, &bytes, version, &describe, singles);
             if c == chunks - 1 {
-                // suffixes, version bytes and the last offsets once per file
-                faults(ctx, &bytes, version, &last, &describe, bytes.len().max(1));
+                // listed suffixes, version bytes and the last offsets once per file
+                faults(ctx, &bytes, version, &last, &describe, bytes.len().max(1), &[]);
             }
             ctx.sample(|| json!({"file": file, "offsets": [lo, hi], "stride": stride}));
         }
